@@ -1,5 +1,6 @@
 (* C18 driver: one case per input line, one result line per case (see harness/C18 for the format).
-   argv[3] = variant: repaired | defective (modefix / curmfix = one fix only, for triage) *)
+   argv[3] = variant: repaired (= /repo HEAD, the only one the check uses); the historical ones
+   (pre_88f69f7, pre_b6afef3, keeponly, staleonly, modefix, curmfix) are for triage by hand only *)
 let npaths = 5
 let kv toks =
   List.filter_map (fun t -> match String.index_opt t '=' with
@@ -83,7 +84,7 @@ let hex_of l = if l = [] then "-" else String.concat "" (List.map (fun x -> Prin
 let () =
   let variant = if Array.length Sys.argv > 3 then Sys.argv.(3) else "repaired" in
   let v = match variant with
-    | "repaired" -> repaired | "defective" -> defective | "head1" -> head1
+    | "repaired" -> repaired | "pre_88f69f7" -> pre_88f69f7 | "pre_b6afef3" -> pre_b6afef3
     | "keeponly" -> { v_mode_fix = true; v_curm_fix = true; v_keep_fix = true; v_stale_fix = false }
     | "staleonly" -> { v_mode_fix = true; v_curm_fix = true; v_keep_fix = false; v_stale_fix = true }
     | "modefix" -> { v_mode_fix = true; v_curm_fix = false; v_keep_fix = false; v_stale_fix = false }
